@@ -248,7 +248,7 @@ fn draw_setup(w: &mut World) -> Setup {
         w.server.client_historical.push((id, (latest_key + 1 + h) % (nk - 1)));
     }
     w.server.server_keys.clear();
-    match w.draws.weighted("setup/key.server", &[80, 15, 3, 2]) {
+    match w.draws.weighted("setup/key.server", &p.key_server) {
         0 => w.server.server_keys.push((latest_id, latest_key)),
         1 => {
             // the server rotated: its latest is newer, the client's latest is historical there
@@ -361,6 +361,20 @@ fn draw_setup(w: &mut World) -> Setup {
     if w.draws.chance("setup/hostile_disk", p.disk.hostile_init) {
         w.stat("disk.hostile_initial_contents");
         hostile_disk(w, &apps);
+    }
+    if p.server == crate::profile::ServerKind::Mock {
+        // one-shot checks run with default parameters (updates enabled): the mock's assertion must match
+        w.server.mock_disable_updates = mode_start && w.draws.draw("setup/mock/disable_updates", 3) == 2;
+        let ids: Vec<String> = apps.iter().map(|a| a.id.clone()).collect();
+        let vers: Vec<String> = apps.iter().map(|a| a.version.to_string()).collect();
+        let dis = w.server.mock_disable_updates;
+        crate::mockserver::setup(w, &ids, &vers, cup, dis);
+        // admin reconfigurations land right after drawn HTTP exchanges
+        let n = w.draws.draw("setup/mock/nreconfig", p.admin_reconfigs as u64 + 1);
+        for k in 0..n {
+            let at = w.draws.draw(&format!("setup/mock/reconfig#{k}/at"), 8);
+            w.triggers.push(Trigger { class: "__admin", ordinal: at, client: k as u32, req: 0, delay: 0 });
+        }
     }
     Setup { apps, system_idx, service_url, cup, mode_start, client_reqs, os_version: "1.0.0.0".to_string() }
 }
@@ -789,7 +803,12 @@ fn run_life(world: &Shared, setup: &Setup, steps: &mut u64) -> LifeEnd {
                     sm_gone = true;
                 }
             }
-            What::ClockJump(_) | What::AdminReconfig(_) => {
+            What::AdminReconfig(k) => {
+                advance(world, ev.t);
+                let mut w = lock(world);
+                crate::mockserver::reconfigure(&mut w, k);
+            }
+            What::ClockJump(_) => {
                 advance(world, ev.t);
             }
         }
